@@ -88,7 +88,7 @@ class Driver:
     """One gateway life (or several sharing a persistence file) under observation."""
 
     def __init__(self, version, flavour, interner, persistence_file=None, raising_cb=False, mqtt=False, no_callback=False, spelling=None,
-                 real_link=False, tcp=False):
+                 real_link=False, tcp=False, react_fw=None):
         import mysensors
         import mysensors.handler
         import mysensors.task
@@ -111,6 +111,10 @@ class Driver:
         self.wire = []
         self.linkup = True
         self.cb_log = []
+        # react_fw = (type, version): the event callback calls gateway.update_fw(node, type, version) whenever a node or
+        # one of its children is presented (an application scheduling firmware for whatever shows up)
+        self.react_fw = tuple(react_fw) if react_fw else None
+        self.reacted = None
         self.events = []
         self.ops = []
         self.lines = {}
@@ -257,7 +261,22 @@ class Driver:
 
     def _callback(self, msg):
         seen = self._seen()
-        self.cb_log.append((self._msg_fields(msg), seen))
+        entry = [self._msg_fields(msg), seen]
+        self.cb_log.append(entry)
+        if self.react_fw and int(msg.type) == 0:
+            # re-entry: a controller call from inside the event callback
+            try:
+                if self.flavour == "async":
+                    loop = self._loop()
+                    if loop.is_running():
+                        raise RuntimeError("inside the running loop (stop() in progress): the coroutine cannot be awaited here")
+                    loop.run_until_complete(self.gw.update_fw(msg.node_id, self.react_fw[0], self.react_fw[1]))
+                else:
+                    self.gw.update_fw(msg.node_id, self.react_fw[0], self.react_fw[1])
+                self.reacted = int(msg.node_id)
+            except Exception:  # pylint: disable=broad-except
+                pass            # no reaction took place
+            entry[1] = self._seen()     # what the callback leaves behind is what the step must end with
         if self.raising_cb:
             raise RuntimeError("callback raises (harness)")
 
@@ -410,7 +429,8 @@ class Driver:
             bad = {"a": ev.get("a", "?"), "unobservable": True, "why": f"{type(exc).__name__}: {exc}"[:200], "out": [], "cb": [],
                    "exc": "none", "raised": False, "alive": self.alive, "hasdisk": False, "haswire": False, "linkup": True, "wire": [],
                    "outp": [], "rawout": [], "st": {"tree": [], "trans": [], "sess": [], "fw": [], "jobs": [], "metric": True, "dirty": True},
-                   "disk": {"file": False, "tree": []}}
+                   "disk": {"file": False, "tree": []}, "rx": {"on": False, "n": 0, "f": [0, 0]}}
+            self.reacted = None
             for k, v in ev.items():
                 bad.setdefault(k, v)
             self.events.append(bad)
@@ -418,6 +438,8 @@ class Driver:
 
     def _emit_event_inner(self, ev, raised, with_disk=False):
         ev["unobservable"] = False
+        ev["rx"] = {"on": self.reacted is not None, "n": self.reacted or 0, "f": list(self.react_fw or (0, 0))}
+        self.reacted = None
         ev["out"] = [self._cmd(x) for x in self.tr.log]
         ev["rawout"] = list(self.tr.log)
         ev["outp"] = [describe(ref_parse_cmd(x)[2] if isinstance(x, str) else "", self.I) for x in self.tr.log]
@@ -705,14 +727,14 @@ class Driver:
     def trace(self, meta=None):
         return {"cfg": {"ver": self.version, "flavour": self.flavour, "raising_cb": self.raising_cb,
                         "persist": bool(self.pfile), "mqtt": self.mqtt, "no_callback": self.no_callback, "spelling": self.spelling,
-                        "real_link": self.real_link, "tcp": self.tcp, **(meta or {})}, "ev": self.events, "ops": self.ops}
+                        "real_link": self.real_link, "tcp": self.tcp, "react_fw": self.react_fw, **(meta or {})}, "ev": self.events, "ops": self.ops}
 
 
 def replay_ops(cfg, ops, persistence_file=None):
     """Re-execute a recorded history against the current tree; returns the new trace."""
     drv = Driver(cfg["ver"], cfg["flavour"], Interner(), persistence_file=persistence_file,
                  raising_cb=cfg.get("raising_cb", False), mqtt=cfg.get("mqtt", False), no_callback=cfg.get("no_callback", False), spelling=cfg.get("spelling"),
-                 real_link=cfg.get("real_link", False), tcp=cfg.get("tcp", False))
+                 real_link=cfg.get("real_link", False), tcp=cfg.get("tcp", False), react_fw=cfg.get("react_fw"))
     for op in ops:
         k = op[0]
         if k == "link":
